@@ -1,9 +1,9 @@
 """C12 — serialisation round trip: the repository's own glue (P-tier); value parsers/encoders are checked bounded."""
-from . import schema_core
+from . import schema_core, valuetypes
 
 
 def build(reg):
-    specs = schema_core.build_c12(reg)
+    specs = schema_core.build_c12(reg) + valuetypes.add_valuetypes(reg)
     return {
         "verify": specs,
         "lemmas": [],
@@ -11,5 +11,5 @@ def build(reg):
             "pydantic ModelMetaclass builds fields/validators and (de)serialises with the class's __json_encoder__ (T5)",
             "the parent metaclass initialiser of SchemaMagic is DynEncoderModelMetaclass.__init__ (MRO resolved by CPython)",
         ],
-        "assumptions": ["dict.update(other) = pointwise override (built-in semantics)", "the value-level parsers (pint, isodate, semver, numpy) are opaque and exercised by the bounded tier only"],
+        "assumptions": ["dict.update(other) = pointwise override (built-in semantics)", "the value-level parsers (pint, isodate, semver, numpy) are opaque and exercised by the bounded tier only; of schema/types.py the repository's own dispatch (Duration.Parser.parse, StringParser.parse) is under contract"],
     }
